@@ -54,9 +54,18 @@ def build(case):
     kind = case["kind"]
     F0, E0 = case.get("F0") or [], case.get("E0") or []
     sc = 2.0 ** int(case.get("scale_exp") or 0)          # exact in binary64: orientation is scale-free
-    VV = [[float(x) * sc for x in p] for p in case["V"]]
+    vrep = case.get("vrep") or "float"
+    if vrep == "float" or sc != 1.0:
+        VV = [[float(x) * sc for x in p] for p in case["V"]]
+        vdt = float
+    elif vrep == "int":
+        VV = [[int(x) for x in p] for p in case["V"]]                 # python ints
+        vdt = int
+    else:
+        vdt = {"uint8": np.uint8, "uint16": np.uint16, "int8": np.int8, "int32": np.int32, "float32": np.float32}[vrep]
+        VV = [np.array(p, dtype=vdt) for p in case["V"]]            # numpy rows of that dtype
     if kind == "from_arrays":
-        return M.mesh.from_arrays(np.array(VV, dtype=float),
+        return M.mesh.from_arrays(np.array(VV, dtype=vdt),
                                   E=np.array(E0, dtype=int) if E0 else None,
                                   F=np.array(F0, dtype=int) if F0 else None,
                                   C=np.array(case["C"], dtype=int))
@@ -167,6 +176,14 @@ def _run_script(M, m, co, case, out, rep):
             elif name in ("boundary_faces", "interior_faces", "boundary_edges", "interior_edges",
                           "boundary_vertices", "interior_vertices"):
                 r = canon(getattr(m, name))
+            elif name == "swap_clear":
+                # the cell list is edited in place, then the connectivity is reset through its public clear()
+                i, j = int(a[0]), int(a[1])
+                ci, cj = m.cells[i], m.cells[j]
+                m.cells[i] = cj
+                m.cells[j] = ci
+                co.clear()
+                r = ["none"]
             elif name in ("face_id_t", "face_id_l"):
                 r = canon(co.face_id(tuple(a) if name == "face_id_t" else list(a)))
             elif name == "enable_bc":
